@@ -1008,3 +1008,42 @@ def check_nonfinite_spellings(ctx, rep):
         else:
             rep.bad("T-HAYSON", "T-HAYSON:nonfinite-spellings:reader", pn.where(), "the reader recognises %s as spellings of non-finite numbers, the encoding has NaN / INF / -INF" % sorted(read))
     return n
+
+
+TEXT_NORMALISERS = ("strip_prefix", "strip_suffix", "trim", "trim_start", "trim_end", "trim_matches", "trim_start_matches", "trim_end_matches",
+                    "to_lowercase", "to_uppercase", "to_ascii_lowercase", "to_ascii_uppercase", "make_ascii_lowercase", "make_ascii_uppercase",
+                    "replace", "replacen", "truncate", "split_off", "split_once", "rsplit_once", "chars().rev")
+
+
+def check_text_verbatim(ctx, rep, files=("encoding/json/decode.rs", "encoding/json/encode.rs", "encoding/zinc/encode.rs")):
+    """closed world over the codecs: text passes through as it is. No function of the Hayson reader / writer or of the Zinc writer
+    applies a string-normalising operation (strip a prefix, trim, change case, replace, truncate) to a text it carries - with one
+    reviewed exception, the `char::to_uppercase` on the *first* character of an XStr type name that the Zinc grammar requires. A
+    decoder that strips a leading `s:` or a writer that lower-cases the rest of a type name changes the value for the texts that
+    happen to match"""
+    prog = ctx.prog
+    n = 0
+    bad = []
+    allowed = 0
+    for b in prog.bodies.values():
+        if not b.file.endswith(files) or "::test" in b.id:
+            continue
+        for bi, t in b.calls():
+            nm = strip_generics(mir.callee_name(t) or "")
+            last = nm.split("::")[-1]
+            if last not in TEXT_NORMALISERS:
+                continue
+            if not (nm.startswith(("core::str::", "std::string::String::", "alloc::str::", "alloc::string::", "std::char::", "core::char::")) or "<impl str>" in nm or "<impl char>" in nm):
+                continue
+            n += 1
+            root = strip_generics(b.rec.get("root", b.id))
+            if "<impl char>" in nm and last == "to_uppercase" and "xstr::XStr as haystack::encoding::zinc::encode::ToZinc" in root:
+                allowed += 1
+                continue
+            bad.append((b, bi, nm))
+    if bad:
+        b, bi, nm = bad[0]
+        rep.bad("T-VERBATIM", "T-VERBATIM:codec-text:%s:%s" % (strip_generics(b.rec.get("root", b.id)).split("::")[-1], nm.split("::")[-1]), b.where(bi), "%s applies %s to a text it reads or writes: for the texts it changes, the value that comes out is not the value that went in" % (b.short.split("::")[-1], nm.split("::")[-1]))
+    else:
+        rep.ok("T-VERBATIM", "codec-text:verbatim", "-", "no text-normalising call in the codecs (%d reviewed exception: first character of the XStr type name)" % allowed)
+    return n
